@@ -36,10 +36,10 @@ def run_program(image, ops, mount=None, model=None, on_step=None, stop_on_disagr
             elif ir.dirty_warned() != (mr.info.get("dirty") == "1"):
                 d = {"at": "mount", "dirty_warning": {"impl": ir.dirty_warned(), "model": mr.info.get("dirty")}}
         out["steps"].append({"op": ["mount"], "impl": list(ires), "nwrites": len(iw)})
+        model_alive = True
         if d:
             out["disagreement"] = d
-            if stop_on_disagree or ires[0] != "ok" or mres[0] != "ok":
-                return out
+            model_alive = False          # from here on only the implementation runs (the direct oracles still judge it)
         if ires[0] != "ok":
             return out
         for i, op in enumerate(ops):
@@ -50,7 +50,7 @@ def run_program(image, ops, mount=None, model=None, on_step=None, stop_on_disagr
                 out["steps"].append({"op": op, "impl": ["skip", None], "nwrites": 0})
                 continue
             step = {"op": op, "impl": canon(list(ires)), "nwrites": len(iw)}
-            if op[0] in MODEL_OPS:
+            if op[0] in MODEL_OPS and model_alive:
                 mres, mw = mr.op(op, now)
                 step["model"] = canon(list(mres))
                 if canon(list(ires)) != canon(list(mres)):
@@ -73,6 +73,5 @@ def run_program(image, ops, mount=None, model=None, on_step=None, stop_on_disagr
                 on_step(i, op, ires, ir)
             if d and out["disagreement"] is None:
                 out["disagreement"] = d
-                if stop_on_disagree:
-                    return out
+                model_alive = False
     return out
